@@ -28,12 +28,13 @@ func c10body(class, n int) []byte {
 // bytes: in the write buffer, after flush, and after a restart that rebuilds the indexes
 // from the data files.
 func VH_C10_U1_invisible() {
-	s := newScen(8192, false, "ka")
-	config.MCConf.BodyMax = 4096
+	s := newScen(32768, false, "ka")
+	config.MCConf.BodyMax = 16384
 	class := vrt.Choice("class", 3)
 	// sizes around the 256-byte record boundary (24 + 2 + n), and a multi-block body whose
 	// last two bytes (beyond the sniffed prefix) are symbolic
-	sizes := []int{229, 230, 231, 600}
+	vrt.QlzBoth() // explore both outcomes of every compression attempt
+	sizes := []int{229, 230, 231, 600, 10300}
 	n := sizes[vrt.Choice("size", len(sizes))]
 	body := c10body(class, n)
 	if n > 512 {
